@@ -2,7 +2,7 @@
    predicate (spec side), and the generators' output for them (model side). *)
 From Coq Require Import NArith ZArith List Bool Lia.
 From Coq Require Import ZifyBool ZifyN ZifyNat.
-From LC Require Import Bits BitsFacts Types BitboardModel BitboardFacts MoveModel MoveFacts MagicFacts PositionModel MovegenModel MovegenFacts BoardFacts
+From LC Require Import Bits BitsFacts Types BitboardModel BitboardFacts MoveModel MoveFacts MagicModel MagicFacts HashFacts PositionModel MovegenModel MovegenFacts BoardFacts
   Spec.Rules Refine.Abs Refine.Board Refine.Make Refine.Wf Refine.MakeAbs Refine.SpecFits AttackFacts PinFacts KingFacts SafetyFacts LegalFacts LegalCore.
 Import ListNotations.
 Local Open Scope N_scope.
@@ -92,3 +92,409 @@ Proof.
     + destruct Hform as [[_ ->]|[cp (_ & _ & ->)]]; reflexivity.
 Qed.
 End Officer.
+
+(* ---------- geometry of a pin line ---------- *)
+(* fr strictly between a and k; t on the segment from a (inclusive) to k (exclusive), t <> fr *)
+Lemma pin_line_sweep :
+  forallb (fun a => forallb (fun k => forallb (fun fr => forallb (fun t =>
+     if t =? fr then true else
+       (fr <? 64) && (t <? 64) &&
+       Bool.eqb (same_diag fr t) (same_diag a k) && Bool.eqb (same_line fr t) (same_line a k) &&
+       forallb (fun y => existsb (N.eqb y) (between a k) && negb (y =? fr) && negb (y =? a)) (between fr t) &&
+       negb (piece_attacks [] White Knight fr t))
+     (a :: between a k)) (between a k)) all64) all64 = true.
+Proof. vm_compute. reflexivity. Qed.
+
+Lemma pin_line a k fr t : a < 64 -> k < 64 -> In fr (between a k) -> (t = a \/ In t (between a k)) -> t <> fr ->
+  fr < 64 /\ t < 64 /\ same_diag fr t = same_diag a k /\ same_line fr t = same_line a k /\
+  (forall y, In y (between fr t) -> In y (between a k) /\ y <> fr /\ y <> a) /\
+  (forall b s, piece_attacks b s Knight fr t = false).
+Proof.
+  intros Ha Hk Hfr Ht Hne.
+  pose proof (forallb_all64 _ (forallb_all64 _ pin_line_sweep a Ha) k Hk) as H. cbv beta in H.
+  rewrite forallb_forall in H. specialize (H fr Hfr). rewrite forallb_forall in H.
+  assert (Hin : In t (a :: between a k)) by (destruct Ht as [->|Ht]; [left; reflexivity|right; exact Ht]).
+  specialize (H t Hin). replace (t =? fr) with false in H by lia.
+  repeat (apply andb_true_iff in H; let H' := fresh "G" in destruct H as [H H']).
+  apply N.ltb_lt in H. apply N.ltb_lt in G3. apply eqb_prop in G2, G1. apply negb_true_iff in G.
+  repeat split; try assumption.
+  - rewrite forallb_forall in G0. specialize (G0 y H0). apply andb_true_iff in G0. destruct G0 as [G0 _]. apply andb_true_iff in G0. destruct G0 as [G0 _]. apply in_existsb. exact G0.
+  - rewrite forallb_forall in G0. specialize (G0 y H0). apply andb_true_iff in G0. destruct G0 as [G0 _]. apply andb_true_iff in G0. destruct G0 as [_ G0]. apply negb_true_iff in G0. lia.
+  - rewrite forallb_forall in G0. specialize (G0 y H0). apply andb_true_iff in G0. destruct G0 as [_ G0]. apply negb_true_iff in G0. lia.
+  - intros b s. rewrite <- G. destruct s; reflexivity.
+Qed.
+
+Definition dir_ok (pc : piece) (a k : N) : bool :=
+  match pc with Bishop => same_diag a k | Rook => same_line a k | Queen => true | _ => false end.
+
+Section Pinned.
+Variable p : position.
+Hypothesis Hwf : wf p = true.
+Variable k : N.
+Hypothesis Hk : find_king (abs_board p) (turn p) = Some k.
+Notation f := (cell_of_b (brd p)).
+Notation us := (turn p).
+Notation them := (opp_side (turn p)).
+
+Lemma pinner_facts a x : Pinner f us k a x ->
+  a < 64 /\ k < 64 /\ In x (between a k) /\ x < 64 /\ (same_diag a k || same_line a k = true) /\ a <> k /\ f a <> None /\
+  (forall y, In y (between a k) -> y <> x -> f y = None).
+Proof.
+  intros (Ha & pa & Efa & Hs & Hal & Hin & Hal2). destruct (k_lt p Hwf k Hk) as [Hk64 _].
+  unfold slider_aligned in Hal. apply andb_true_iff in Hal. destruct Hal as [Hak Hal]. apply negb_true_iff in Hak.
+  repeat split; try assumption.
+  - apply (between_lt a k); assumption.
+  - destruct pa; try discriminate; rewrite ?Hal, ?orb_true_r; try reflexivity; exact Hal.
+  - lia.
+  - congruence.
+Qed.
+
+(* the pinner of a piece is unique *)
+Lemma pinner_uniq a a' x : Pinner f us k a x -> Pinner f us k a' x -> a = a'.
+Proof.
+  intros H1 H2. destruct (pinner_facts a x H1) as (Ha & Hk64 & Hin & Hx & _ & _ & Hfa & Hal).
+  destruct (pinner_facts a' x H2) as (Ha' & _ & Hin' & _ & _ & _ & Hfa' & Hal').
+  destruct (N.eq_dec a a') as [E|Hne]; [exact E|exfalso].
+  destruct (ray_share k a a' x Hk64 Ha Ha' Hne Hin Hin') as [H|H].
+  - apply Hfa. apply Hal'; [exact H|]. intros E. destruct (between_geo a k Ha Hk64) as (_ & Hn & _). rewrite E in Hn at 1. contradiction.
+  - apply Hfa'. apply Hal; [exact H|]. intros E. destruct (between_geo a' k Ha' Hk64) as (_ & Hn & _). rewrite E in Hn at 1. contradiction.
+Qed.
+
+Lemma pin_ok_pinned a fr t : Pinner f us k a fr -> (pin_ok p k fr t <-> t = a \/ In t (between a k)).
+Proof.
+  intros Hp. unfold pin_ok. split; [intros H; apply H; exact Hp|].
+  intros H a' Hp'. rewrite <- (pinner_uniq a a' fr Hp Hp'). exact H.
+Qed.
+
+Lemma pin_ok_free fr t : (forall a, ~ Pinner f us k a fr) -> pin_ok p k fr t.
+Proof. intros H a Hp. exfalso. exact (H a Hp). Qed.
+
+(* which squares of the pin line a pinned officer reaches *)
+Lemma pinned_officer_attacks a fr t pc : Pinner f us k a fr -> officer pc = true -> (t = a \/ In t (between a k)) ->
+  piece_attacks (abs_board p) us pc fr t = negb (t =? fr) && dir_ok pc a k.
+Proof.
+  intros Hp Hoff Ht. destruct (pinner_facts a fr Hp) as (Ha & Hk64 & Hin & Hfr & Hdir & _ & _ & Hal).
+  destruct (N.eqb_spec t fr) as [->|Hne].
+  - rewrite piece_attacks_self by exact Hfr. reflexivity.
+  - destruct (pin_line a k fr t Ha Hk64 Hin Ht Hne) as (_ & Ht64 & Ed & El & Hbt & Hkn). cbn [negb andb].
+    assert (Hclear : all_empty (abs_board p) (between fr t) = true).
+    { unfold all_empty. apply forallb_forall. intros y Hy. destruct (Hbt y Hy) as (Hy1 & Hy2 & _).
+      unfold is_empty. rewrite at_sq_abs_board by (apply (between_lt a k); assumption). change (cell_of p y) with (f y). rewrite (Hal y Hy1 Hy2). reflexivity. }
+    destruct pc; try discriminate.
+    + apply Hkn.
+    + rewrite slider_attacks by reflexivity. unfold slider_aligned. rewrite Hclear, Ed. replace (fr =? t) with false by lia. cbn [dir_ok negb andb]. rewrite andb_true_r. reflexivity.
+    + rewrite slider_attacks by reflexivity. unfold slider_aligned. rewrite Hclear, El. replace (fr =? t) with false by lia. cbn [dir_ok negb andb]. rewrite andb_true_r. reflexivity.
+    + rewrite slider_attacks by reflexivity. unfold slider_aligned. rewrite Hclear, Ed, El, Hdir. replace (fr =? t) with false by lia. reflexivity.
+Qed.
+End Pinned.
+
+(* ---------- the pin sets of legal_captures on the mailbox ---------- *)
+Lemma rank_file_mask_sweep :
+  forallb (fun k => forallb (fun x =>
+    Bool.eqb (N.testbit (rank_mask (sq_rank k)) x || N.testbit (file_mask (sq_file k)) x) (same_line k x)) all64) all64 = true.
+Proof. vm_compute. reflexivity. Qed.
+
+Section PinSets.
+Variable p : position.
+Hypothesis Hwf : wf p = true.
+Variable k : N.
+Hypothesis Hk : find_king (abs_board p) (turn p) = Some k.
+Notation f := (cell_of_b (brd p)).
+Notation us := (turn p).
+Notation them := (opp_side (turn p)).
+
+Definition Own (x : N) : Prop := exists pc, f x = Some (us, pc).
+Definition PinnedDiag (x : N) : Prop := Own x /\ exists a, Pinner f us k a x /\ same_diag a k = true.
+Definition PinnedLine (x : N) : Prop := Own x /\ exists a, Pinner f us k a x /\ same_line a k = true.
+
+Lemma pinner_line_of a x : Pinner f us k a x -> same_line k x = same_line a k /\ same_diag k x = same_diag a k /\ (same_diag a k = negb (same_line a k)).
+Proof.
+  intros Hp. destruct (pinner_facts p Hwf k Hk a x Hp) as (Ha & Hk64 & Hin & Hx & Hdir & Hak & _).
+  apply (between_sym a k x Ha Hk64) in Hin. destruct (between_geo k a Hk64 Ha) as (_ & _ & Hex & Hbt). destruct (Hbt x Hin) as (_ & _ & _ & Ed & El & _).
+  rewrite Ed, El, (same_diag_sym k a Hk64 Ha), (same_line_sym k a Hk64 Ha). split; [reflexivity|]. split; [reflexivity|].
+  destruct (same_diag a k) eqn:E1; destruct (same_line a k) eqn:E2; try reflexivity; try discriminate.
+  exfalso. apply Hak. symmetry. apply Hex; [rewrite (same_diag_sym k a Hk64 Ha)|rewrite (same_line_sym k a Hk64 Ha)]; assumption.
+Qed.
+
+Lemma g_pinned_rook_bit x : x < 64 -> N.testbit (g_pinned_rook p) x = N.testbit (pinned p) x && same_line k x.
+Proof.
+  intros Hx. destruct (k_lt p Hwf k Hk) as [Hk64 _]. unfold g_pinned_rook, g_pin. rewrite (ksq_eq p Hwf k Hk).
+  rewrite N.lor_spec, !N.land_spec, <- andb_orb_distrib_r.
+  pose proof (forallb_all64 _ (forallb_all64 _ rank_file_mask_sweep k Hk64) x Hx) as H. cbv beta in H. apply eqb_prop in H. rewrite H. reflexivity.
+Qed.
+
+Lemma g_pinned_rook_iff x : x < 64 -> (N.testbit (g_pinned_rook p) x = true <-> PinnedLine x).
+Proof.
+  intros Hx. rewrite (g_pinned_rook_bit x Hx), andb_true_iff, (pinned_iff p k x Hwf Hk Hx). unfold PinnedLine, Own. split.
+  - intros [[Ho [a Hp]] Hl]. split; [exact Ho|]. exists a. split; [exact Hp|]. destruct (pinner_line_of a x Hp) as (E & _). congruence.
+  - intros [Ho [a [Hp Hl]]]. split; [split; [exact Ho|exists a; exact Hp]|]. destruct (pinner_line_of a x Hp) as (E & _). congruence.
+Qed.
+
+Lemma g_pinned_bishop_iff x : x < 64 -> (N.testbit (g_pinned_bishop p) x = true <-> PinnedDiag x).
+Proof.
+  intros Hx. unfold g_pinned_bishop. rewrite N.lxor_spec, (g_pinned_rook_bit x Hx). unfold g_pin.
+  assert (E : xorb (N.testbit (pinned p) x) (N.testbit (pinned p) x && same_line k x) = N.testbit (pinned p) x && negb (same_line k x))
+    by (destruct (N.testbit (pinned p) x); destruct (same_line k x); reflexivity).
+  rewrite E, andb_true_iff, (pinned_iff p k x Hwf Hk Hx). unfold PinnedDiag, Own. split.
+  - intros [[Ho [a Hp]] Hl]. split; [exact Ho|]. exists a. split; [exact Hp|]. destruct (pinner_line_of a x Hp) as (E1 & _ & E3). rewrite E3, <- E1. exact Hl.
+  - intros [Ho [a [Hp Hl]]]. split; [split; [exact Ho|exists a; exact Hp]|]. destruct (pinner_line_of a x Hp) as (E1 & _ & E3). rewrite E1. rewrite E3 in Hl. exact Hl.
+Qed.
+
+Lemma not_pinned_iff x : x < 64 -> Own x -> (N.testbit (pinned p) x = false <-> forall a, ~ Pinner f us k a x).
+Proof.
+  intros Hx Ho. split.
+  - intros H a Hp. assert (N.testbit (pinned p) x = true) by (apply (pinned_iff p k x Hwf Hk Hx); split; [exact Ho|exists a; exact Hp]). congruence.
+  - intros H. apply not_true_is_false. intros E. apply (pinned_iff p k x Hwf Hk Hx) in E. destruct E as [_ [a Hp]]. exact (H a Hp).
+Qed.
+End PinSets.
+
+(* ---------- captures by pinned sliders: the x-ray trick ---------- *)
+Lemma xray_sweep :
+  forallb (fun a => forallb (fun k => forallb (fun fr => forallb (fun t =>
+     (if same_diag a k && same_diag fr t && negb (fr =? t) && same_diag k t && negb (k =? t)
+      then (t =? a) || existsb (N.eqb t) (between a k) || existsb (N.eqb a) (between fr t) || existsb (N.eqb k) (between fr t) else true) &&
+     (if same_line a k && same_line fr t && negb (fr =? t) && same_line k t && negb (k =? t)
+      then (t =? a) || existsb (N.eqb t) (between a k) || existsb (N.eqb a) (between fr t) || existsb (N.eqb k) (between fr t) else true))
+     all64) (between a k)) all64) all64 = true.
+Proof. vm_compute. reflexivity. Qed.
+
+Lemma xray_geo (diag : bool) a k fr t : a < 64 -> k < 64 -> t < 64 -> In fr (between a k) ->
+  let al := if diag then same_diag else same_line in
+  al a k = true -> al fr t = true -> fr <> t -> al k t = true -> k <> t ->
+  t = a \/ In t (between a k) \/ In a (between fr t) \/ In k (between fr t).
+Proof.
+  intros Ha Hk Ht Hfr al H1 H2 H3 H4 H5.
+  pose proof (forallb_all64 _ (forallb_all64 _ xray_sweep a Ha) k Hk) as H. cbv beta in H.
+  rewrite forallb_forall in H. specialize (H fr Hfr). pose proof (forallb_all64 _ H t Ht) as G. cbv beta in G.
+  apply andb_true_iff in G. destruct G as [G1 G2].
+  assert (R : forall b : bool, (if b then (t =? a) || existsb (N.eqb t) (between a k) || existsb (N.eqb a) (between fr t) || existsb (N.eqb k) (between fr t) else true) = true -> b = true ->
+              t = a \/ In t (between a k) \/ In a (between fr t) \/ In k (between fr t)).
+  { intros b Hb ->. repeat (apply orb_true_iff in Hb; destruct Hb as [Hb|Hb]).
+    - left. apply N.eqb_eq. exact Hb.
+    - right. left. apply in_existsb. exact Hb.
+    - right. right. left. apply in_existsb. exact Hb.
+    - right. right. right. apply in_existsb. exact Hb. }
+  unfold al in *. destruct diag.
+  - apply (R _ G1). rewrite H1, H2, H4. replace (fr =? t) with false by lia. replace (k =? t) with false by lia. reflexivity.
+  - apply (R _ G2). rewrite H1, H2, H4. replace (fr =? t) with false by lia. replace (k =? t) with false by lia. reflexivity.
+Qed.
+
+(* ---------- model side ---------- *)
+Definition officer_mask (pc : piece) (fr occ : N) : N :=
+  match pc with Knight => knight_moves fr | Bishop => bishop_moves fr occ | Rook => rook_moves fr occ | _ => queen_moves fr occ end.
+
+Lemma in_caps_emit p pc S (M : N -> N) m : S < two64 -> (forall fr, M fr < two64) ->
+  (In m (emit S (fun fr => caps_from p pc fr (M fr))) <->
+   exists fr t, fr < 64 /\ t < 64 /\ N.testbit S fr = true /\ N.testbit (M fr) t = true /\ m = mkMove Capture fr t pc (piece_on p t) NoPiece).
+Proof.
+  intros HS HM. rewrite (in_emit_iff S _ m HS). split.
+  - intros (fr & Hfr & Hb & Hin). unfold caps_from in Hin. apply (in_emit_iff _ _ m (HM fr)) in Hin. destruct Hin as (t & Ht & Hbt & [<-|[]]).
+    exists fr, t. repeat split; assumption.
+  - intros (fr & t & Hfr & Ht & Hb & Hbt & ->). exists fr. split; [exact Hfr|]. split; [exact Hb|]. unfold caps_from. apply (in_emit_iff _ _ _ (HM fr)).
+    exists t. split; [exact Ht|]. split; [exact Hbt|left; reflexivity].
+Qed.
+
+Lemma in_normals_emit pc S (M : N -> N) m : S < two64 -> (forall fr, M fr < two64) ->
+  (In m (emit S (fun fr => normals_from pc fr (M fr))) <->
+   exists fr t, fr < 64 /\ t < 64 /\ N.testbit S fr = true /\ N.testbit (M fr) t = true /\ m = mkMove Normal fr t pc NoPiece NoPiece).
+Proof.
+  intros HS HM. rewrite (in_emit_iff S _ m HS). split.
+  - intros (fr & Hfr & Hb & Hin). unfold normals_from in Hin. apply (in_emit_iff _ _ m (HM fr)) in Hin. destruct Hin as (t & Ht & Hbt & [<-|[]]).
+    exists fr, t. repeat split; assumption.
+  - intros (fr & t & Hfr & Ht & Hb & Hbt & ->). exists fr. split; [exact Hfr|]. split; [exact Hb|]. unfold normals_from. apply (in_emit_iff _ _ _ (HM fr)).
+    exists t. split; [exact Ht|]. split; [exact Hbt|left; reflexivity].
+Qed.
+
+Section OfficerModel.
+Variable p : position.
+Hypothesis Hwf : wf p = true.
+Variable k : N.
+Hypothesis Hk : find_king (abs_board p) (turn p) = Some k.
+Hypothesis Huk : forall a, a < 64 -> cell_of_b (brd p) a = Some (turn p, King) -> a = k.
+Hypothesis Hnd : (1 <? bb_count (checkers p)) = false.
+Notation f := (cell_of_b (brd p)).
+Notation us := (turn p).
+Notation them := (opp_side (turn p)).
+
+Lemma Hlt_ : board_lt (brd p). Proof. destruct (Hrep_ p Hwf) as [_ H]. exact H. Qed.
+Lemma g_occ_ne_eq : g_occ_ne p = occupied p. Proof. apply not_not_occ. exact Hlt_. Qed.
+
+Lemma officer_mask_attacks pc fr t : officer pc = true -> fr < 64 -> t < 64 ->
+  N.testbit (officer_mask pc fr (occupied p)) t = piece_attacks (abs_board p) us pc fr t.
+Proof.
+  intros Hoff Hfr Ht.
+  assert (Hc : clear_on (occupied p) (between fr t) = all_empty (abs_board p) (between fr t)).
+  { apply (clear_on_all_empty p f _ (Hrep_ p Hwf)). intros x Hx. apply (between_lt fr t); assumption. }
+  destruct pc; try discriminate; unfold officer_mask.
+  - apply knight_moves_geometric; assumption.
+  - rewrite bishop_moves_geometric, Hc by assumption. reflexivity.
+  - rewrite rook_moves_geometric, Hc by assumption. reflexivity.
+  - rewrite queen_moves_geometric, Hc by assumption. reflexivity.
+Qed.
+
+Lemma pieces_bit pc x : x < 64 -> pc <> NoPiece -> (N.testbit (pieces p us pc) x = true <-> f x = Some (us, pc)).
+Proof.
+  intros Hx Hpc. rewrite (pieces_rep p f us pc x (Hrep_ p Hwf) Hx Hpc). split.
+  - destruct (f x) as [[c pc']|]; [|discriminate]. intros H. apply andb_true_iff in H. destruct H as [H1 H2]. apply side_eqb_true in H1. apply piece_eqb_eq in H2. subst. reflexivity.
+  - intros ->. rewrite side_eqb_refl. apply andb_true_iff. split; [reflexivity|]. apply piece_eqb_eq. reflexivity.
+Qed.
+
+Lemma pieces_lt_ pc : pieces p us pc < two64. Proof. apply pieces_lt. exact Hlt_. Qed.
+End OfficerModel.
+
+Section PinnedCaptures.
+Variable p : position.
+Hypothesis Hwf : wf p = true.
+Variable k : N.
+Hypothesis Hk : find_king (abs_board p) (turn p) = Some k.
+Notation f := (cell_of_b (brd p)).
+Notation us := (turn p).
+Notation them := (opp_side (turn p)).
+
+Definition kind_al (diag : bool) : N -> N -> bool := if diag then same_diag else same_line.
+Definition kind_mv (diag : bool) : N -> N -> N := if diag then bishop_moves else rook_moves.
+Definition kind_set (diag : bool) : N := if diag then g_pinned_bishop p else g_pinned_rook p.
+
+Lemma kind_mv_geo diag sq occ t : sq < 64 -> t < 64 ->
+  N.testbit (kind_mv diag sq occ) t = negb (sq =? t) && kind_al diag sq t && clear_on occ (between sq t).
+Proof. intros Hs Ht. destruct diag; [apply bishop_moves_geometric|apply rook_moves_geometric]; assumption. Qed.
+
+Lemma kind_set_iff diag x : x < 64 ->
+  (N.testbit (kind_set diag) x = true <-> Own p x /\ exists a, Pinner f us k a x /\ kind_al diag a k = true).
+Proof. intros Hx. destruct diag; [apply (g_pinned_bishop_iff p Hwf k Hk x Hx)|apply (g_pinned_rook_iff p Hwf k Hk x Hx)]. Qed.
+
+Lemma kind_al_sym diag a b : a < 64 -> b < 64 -> kind_al diag a b = kind_al diag b a.
+Proof. intros Ha Hb. destruct diag; [apply same_diag_sym|apply same_line_sym]; assumption. Qed.
+
+(* a pinned slider captures exactly its pinner *)
+Lemma pinned_cap_target diag fr a t cp : Pinner f us k a fr -> kind_al diag a k = true -> Own p fr -> t < 64 -> f t = Some (them, cp) ->
+  (N.testbit (kind_mv diag fr (occupied p)) t = true /\ N.testbit (kind_mv diag k (N.lxor (occupied p) (kind_set diag))) t = true <-> t = a).
+Proof.
+  intros Hp Hal Hown Ht Eft. destruct (pinner_facts p Hwf k Hk a fr Hp) as (Ha & Hk64 & Hin & Hfr & _ & Hak & Hfa & Halone).
+  destruct (k_lt p Hwf k Hk) as [_ Hfk]. pose proof (Hrep_ p Hwf) as Hrep.
+  split.
+  - intros [H1 H2]. rewrite (kind_mv_geo diag fr _ t Hfr Ht) in H1. rewrite (kind_mv_geo diag k _ t Hk64 Ht) in H2.
+    repeat (apply andb_true_iff in H1; let H' := fresh "A" in destruct H1 as [H1 H']).
+    repeat (apply andb_true_iff in H2; let H' := fresh "B" in destruct H2 as [H2 H']).
+    apply negb_true_iff, N.eqb_neq in H1, H2.
+    assert (G : t = a \/ In t (between a k) \/ In a (between fr t) \/ In k (between fr t)).
+    { apply (xray_geo diag a k fr t Ha Hk64 Ht Hin); unfold kind_al in *; destruct diag; assumption. }
+    destruct G as [G|[G|[G|G]]]; [exact G| | |]; exfalso.
+    + assert (Hne : t <> fr) by (intros ->; destruct Hown as [pc E]; rewrite E in Eft; inversion Eft; destruct us; discriminate).
+      rewrite (Halone t G Hne) in Eft. discriminate.
+    + pose proof (proj1 (clear_on_forall _ _) A a G) as Hz. rewrite (occupied_rep p f a Hrep Ha) in Hz. destruct (f a); [discriminate|apply Hfa; reflexivity].
+    + pose proof (proj1 (clear_on_forall _ _) A k G) as Hz. rewrite (occupied_rep p f k Hrep Hk64), Hfk in Hz. discriminate.
+  - intros ->. assert (Hne : a <> fr) by (intros ->; destruct (between_geo fr k Hfr Hk64) as (_ & Hn & _); contradiction).
+    destruct (pin_line a k fr a Ha Hk64 Hin (or_introl eq_refl) Hne) as (_ & _ & Ed & El & Hbt & _).
+    split.
+    + rewrite (kind_mv_geo diag fr _ a Hfr Ha). replace (fr =? a) with false by lia. cbn [negb andb].
+      apply andb_true_iff. split; [unfold kind_al in *; destruct diag; congruence|].
+      apply clear_on_forall. intros y Hy. destruct (Hbt y Hy) as (Hy1 & Hy2 & _).
+      rewrite (occupied_rep p f y Hrep) by (apply (between_lt a k); assumption). rewrite (Halone y Hy1 Hy2). reflexivity.
+    + rewrite (kind_mv_geo diag k _ a Hk64 Ha). replace (k =? a) with false by lia. cbn [negb andb].
+      apply andb_true_iff. split; [rewrite kind_al_sym by assumption; exact Hal|].
+      apply clear_on_forall. intros y Hy. apply (between_sym k a y Hk64 Ha) in Hy.
+      assert (Hy64 : y < 64) by (apply (between_lt a k); assumption).
+      rewrite N.lxor_spec, (occupied_rep p f y Hrep Hy64).
+      destruct (N.eq_dec y fr) as [->|Hyf].
+      * destruct Hown as [pc E]. rewrite E.
+        assert (Hs : N.testbit (kind_set diag) fr = true) by (apply (kind_set_iff diag fr Hfr); split; [exists pc; exact E|exists a; split; assumption]).
+        rewrite Hs. reflexivity.
+      * rewrite (Halone y Hy Hyf). destruct (N.testbit (kind_set diag) y) eqn:Es; [|reflexivity].
+        apply (kind_set_iff diag y Hy64) in Es. destruct Es as [[pc E] _]. rewrite (Halone y Hy Hyf) in E. discriminate.
+Qed.
+End PinnedCaptures.
+
+Section Captures.
+Variable dfrc : bool.
+Variable p : position.
+Hypothesis Hwf : wf p = true.
+Hypothesis Hlc : legal_consistent dfrc (abs p) = true.
+Variable k : N.
+Hypothesis Hk : find_king (abs_board p) (turn p) = Some k.
+Hypothesis Huk : forall a, a < 64 -> cell_of_b (brd p) a = Some (turn p, King) -> a = k.
+Hypothesis Hnd : (1 <? bb_count (checkers p)) = false.
+Notation f := (cell_of_b (brd p)).
+Notation us := (turn p).
+Notation them := (opp_side (turn p)).
+
+Definition cap_spec (pc : piece) (fr t : N) (m : move) : Prop :=
+  f fr = Some (us, pc) /\ piece_attacks (abs_board p) us pc fr t = true /\ resolves p k t /\ pin_ok p k fr t /\
+  exists cp, f t = Some (them, cp) /\ cp <> King /\ m = mkMove Capture fr t pc cp NoPiece.
+
+Lemma officer_mask_lt pc fr occ : officer pc = true -> fr < 64 -> N.land (officer_mask pc fr occ) (g_allowed_c p) < two64.
+Proof. intros _ _. rewrite N.land_comm. apply land_lt. apply (g_allowed_c_lt p Hwf). Qed.
+
+(* pieces that are not pinned *)
+Lemma free_caps_iff pc m : officer pc = true ->
+  (In m (emit (N.land (pieces p us pc) (not64 (g_pin p))) (fun fr => caps_from p pc fr (N.land (officer_mask pc fr (g_occ_ne p)) (g_allowed_c p)))) <->
+   exists fr t, fr < 64 /\ t < 64 /\ cap_spec pc fr t m /\ forall a, ~ Pinner f us k a fr).
+Proof.
+  intros Hoff. assert (Hpc : pc <> NoPiece) by (intros ->; discriminate).
+  rewrite in_caps_emit; [|apply land_lt, (pieces_lt_ p Hwf)|intros fr; rewrite N.land_comm; apply land_lt, (g_allowed_c_lt p Hwf)].
+  rewrite (g_occ_ne_eq p Hwf). split.
+  - intros (fr & t & Hfr & Ht & Hb & Hbt & ->). exists fr, t. split; [exact Hfr|]. split; [exact Ht|].
+    rewrite N.land_spec, not64_spec in Hb. apply andb_true_iff in Hb. destruct Hb as [Hb1 Hb2]. apply (pieces_bit p Hwf pc fr Hfr Hpc) in Hb1.
+    replace (fr <? 64) with true in Hb2 by lia. cbn [andb] in Hb2. apply negb_true_iff in Hb2.
+    assert (Hfree : forall a, ~ Pinner f us k a fr) by (apply (not_pinned_iff p Hwf k Hk fr Hfr (ex_intro _ pc Hb1)); exact Hb2).
+    rewrite N.land_spec in Hbt. apply andb_true_iff in Hbt. destruct Hbt as [Hm Hal].
+    rewrite (officer_mask_attacks p Hwf pc fr t Hoff Hfr Ht) in Hm.
+    apply (g_allowed_c_iff p Hwf k Hk Hnd t Ht) in Hal. destruct Hal as [[cp Ecp] Hres].
+    split; [|exact Hfree]. unfold cap_spec. repeat split; try assumption; [apply pin_ok_free; exact Hfree|].
+    exists cp. split; [exact Ecp|]. split.
+    + intros ->. rewrite (lc_enemy_king_safe dfrc p fr pc t Hwf Hlc Hfr Ht Hb1 Ecp) in Hm. discriminate.
+    + rewrite (piece_on_f p t cp them Ht Ecp). reflexivity.
+  - intros (fr & t & Hfr & Ht & (Hf & Hatt & Hres & _ & cp & Ecp & _ & ->) & Hfree). exists fr, t. split; [exact Hfr|]. split; [exact Ht|].
+    split; [|split].
+    + rewrite N.land_spec, not64_spec. apply andb_true_iff. split; [apply (pieces_bit p Hwf pc fr Hfr Hpc); exact Hf|].
+      replace (fr <? 64) with true by lia. cbn [andb]. apply negb_true_iff. apply (not_pinned_iff p Hwf k Hk fr Hfr (ex_intro _ pc Hf)). exact Hfree.
+    + rewrite N.land_spec. apply andb_true_iff. split; [rewrite (officer_mask_attacks p Hwf pc fr t Hoff Hfr Ht); exact Hatt|].
+      apply (g_allowed_c_iff p Hwf k Hk Hnd t Ht). split; [exists cp; exact Ecp|exact Hres].
+    + rewrite (piece_on_f p t cp them Ht Ecp). reflexivity.
+Qed.
+
+Definition kind_pc (diag : bool) (pc : piece) : bool :=
+  match pc with Queen => true | Bishop => diag | Rook => negb diag | _ => false end.
+
+(* pinned sliders: only the pinner can be captured *)
+Lemma pinned_caps_iff diag pc m : kind_pc diag pc = true ->
+  (In m (emit (N.land (pieces p us pc) (kind_set p diag))
+              (fun fr => caps_from p pc fr (N.land (N.land (kind_mv diag fr (g_occ_ne p)) (g_allowed_c p))
+                                                   (kind_mv diag k (N.lxor (occupied p) (kind_set p diag)))))) <->
+   exists fr t, fr < 64 /\ t < 64 /\ cap_spec pc fr t m /\ exists a, Pinner f us k a fr /\ kind_al diag a k = true).
+Proof.
+  intros Hkp. assert (Hpc : pc <> NoPiece) by (intros ->; discriminate). assert (Hoff : officer pc = true) by (destruct pc; try discriminate; reflexivity).
+  rewrite in_caps_emit; [|apply land_lt, (pieces_lt_ p Hwf)|intros fr; apply land_lt; rewrite N.land_comm; apply land_lt, (g_allowed_c_lt p Hwf)].
+  rewrite (g_occ_ne_eq p Hwf).
+  assert (Hdir : forall a, kind_al diag a k = true -> dir_ok pc a k = true).
+  { intros a Hal. unfold kind_al in Hal. destruct pc; try discriminate; destruct diag; try discriminate; try reflexivity; exact Hal. }
+  split.
+  - intros (fr & t & Hfr & Ht & Hb & Hbt & ->). exists fr, t. split; [exact Hfr|]. split; [exact Ht|].
+    rewrite N.land_spec in Hb. apply andb_true_iff in Hb. destruct Hb as [Hb1 Hb2]. apply (pieces_bit p Hwf pc fr Hfr Hpc) in Hb1.
+    apply (kind_set_iff p Hwf k Hk diag fr Hfr) in Hb2. destruct Hb2 as [Hown [a [Hp Hal]]].
+    rewrite !N.land_spec in Hbt. apply andb_true_iff in Hbt. destruct Hbt as [Hbt Hx]. apply andb_true_iff in Hbt. destruct Hbt as [Hm Hallow].
+    apply (g_allowed_c_iff p Hwf k Hk Hnd t Ht) in Hallow. destruct Hallow as [[cp Ecp] Hres].
+    assert (Eta : t = a) by (apply (pinned_cap_target p Hwf k Hk diag fr a t cp Hp Hal Hown Ht Ecp); split; assumption). subst t.
+    split; [|exists a; split; assumption]. unfold cap_spec. split; [exact Hb1|].
+    pose proof (pinned_officer_attacks p Hwf k Hk a fr a pc Hp Hoff (or_introl eq_refl)) as Hatt.
+    assert (Hne : a <> fr) by (intros ->; rewrite Hb1 in Ecp; inversion Ecp; destruct us; discriminate).
+    rewrite (Hdir a Hal) in Hatt. replace (a =? fr) with false in Hatt by lia. cbn [negb andb] in Hatt.
+    split; [exact Hatt|]. split; [exact Hres|]. split; [apply (pin_ok_pinned p Hwf k Hk a fr a Hp); left; reflexivity|].
+    exists cp. split; [exact Ecp|]. split.
+    + intros ->. rewrite (lc_enemy_king_safe dfrc p fr pc a Hwf Hlc Hfr Ht Hb1 Ecp) in Hatt. discriminate.
+    + rewrite (piece_on_f p a cp them Ht Ecp). reflexivity.
+  - intros (fr & t & Hfr & Ht & (Hf & Hatt & Hres & Hpin & cp & Ecp & _ & ->) & a & Hp & Hal). exists fr, t. split; [exact Hfr|]. split; [exact Ht|].
+    assert (Hown : Own p fr) by (exists pc; exact Hf).
+    assert (Eta : t = a).
+    { pose proof (proj1 (pin_ok_pinned p Hwf k Hk a fr t Hp) Hpin) as Hpin'. destruct Hpin' as [E|Hin]; [exact E|exfalso].
+      destruct (pinner_facts p Hwf k Hk a fr Hp) as (_ & _ & _ & _ & _ & _ & _ & Halone).
+      assert (Hne : t <> fr) by (intros ->; rewrite Hf in Ecp; inversion Ecp; destruct us; discriminate).
+      rewrite (Halone t Hin Hne) in Ecp. discriminate. }
+    subst t. destruct (proj2 (pinned_cap_target p Hwf k Hk diag fr a a cp Hp Hal Hown Ht Ecp) eq_refl) as [H1 H2].
+    split; [|split].
+    + rewrite N.land_spec. apply andb_true_iff. split; [apply (pieces_bit p Hwf pc fr Hfr Hpc); exact Hf|].
+      apply (kind_set_iff p Hwf k Hk diag fr Hfr). split; [exact Hown|exists a; split; assumption].
+    + rewrite !N.land_spec, H1, H2. cbn [andb]. rewrite andb_true_r. apply (g_allowed_c_iff p Hwf k Hk Hnd a Ht). split; [exists cp; exact Ecp|exact Hres].
+    + rewrite (piece_on_f p a cp them Ht Ecp). reflexivity.
+Qed.
+End Captures.
